@@ -41,6 +41,7 @@ func c08Extra(c *Ctx) {
 	if tp := p.MustPkg("value-cycle-detection", "internal/types"); tp != nil {
 		c08ValueCycles(c, p, tp)
 		c08UniverseInterfaces(c, p, tp)
+		c08ConstantKindAsserts(c, p, tp)
 		c08LookupNil(c, p, tp)
 	}
 	c08CommentMarkers(c)
